@@ -179,3 +179,14 @@ Definition case_searchuid (s : str) (uids got : list Z) (ast : option seqset) : 
   pack (zlist_eqb (map fst (filter (fun p => matches_sequence_set (snd p) s (max_uid_of uids)) rows)) got)
        (with_ast ast true (fun a => zlist_eqb got (map fst (filter (fun p => denote a (max_uid uids) (snd p)) rows))))
        (ast_print_ok ast s) None.
+
+(** UID STORE <set> +FLAGS (Junk | NonJunk) with the auto-move *)
+Definition case_uidjunk (s : str) (pre : list (Z * str)) (notices post : list Z) (ast : option seqset) : Z :=
+  let mb := mk_mbox pre in
+  let '(ns, ids, mb') := handle_uidstore_junk s mb in
+  pack (zlist_eqb ns notices && zlist_eqb (map m_uid mb') post)
+       (zlist_eqb (replay notices (map m_uid mb)) post
+        && with_ast ast true (fun a =>
+             zset_eqb (filter (fun u => negb (existsb (Z.eqb u) post)) (map m_uid mb))
+                      (addressed_uids a (map m_uid mb))))
+       (ast_print_ok ast s) None.
